@@ -137,7 +137,9 @@ func (r *Run) opDeviceDecide(st Step) {
 		val = val + "X"
 	}
 	r.Fault.suspend++
+	r.A.FreshSessionOnApproval = st.p("fresh_session") != ""
 	why := r.A.DeviceVerify(val, accept, sub, grant, grantAud)
+	r.A.FreshSessionOnApproval = false
 	r.Fault.suspend--
 	exp, _ := r.L.Expect(uc, r.now())
 	r.logf("device_decide %s %s sub=%s -> %q", uc.Name(), map[bool]string{true: "accept", false: "reject"}[accept], sub, why)
